@@ -288,6 +288,7 @@ class RecorderCheck(object):
             if cap and len(paths) > cap:
                 rnd.shuffle(paths)
                 paths = paths[:cap]
+        _log('%s: %d complete paths, replaying %d' % (name, total, len(paths)))
         self.rep.extra.setdefault('generating', []).append(
             {'config': name, 'graph_states': len(g.states), 'graph_edges': g.n_edges, 'complete_paths': total,
              'paths_replayed': len(paths), 'all_paths': exhaustive, 'cassettes': list(cassettes),
